@@ -779,7 +779,7 @@ def c08_tlv_end_image(rng, geo, form, ln, d, variant):
 
 def _run_c08_tlv_end(desc, R, rng):
     form = desc["form"]
-    specs = TE.enumerate_specs(rng, form, desc["tier"], len(TLV_END_GEO))
+    specs = TE.enumerate_specs(rng, form, desc["tier"], len(TLV_END_GEO), heavy=(3, 4))
     if desc.get("parts"):
         specs = specs[desc["part"]::desc["parts"]]
     case = None
